@@ -82,9 +82,9 @@ func VH13a_listener() {
 	var evs []evrec
 	lives := map[uint32]*pipeLife{}
 	var order []*pipeLife
-	fate := make([]int, C) // 0 live, 1 hook closes in Attaching, 2 hook closes in Attached, 3 proto refuses, 4 peer drops later, 5 app closes later
+	fate := make([]int, C) // 6 peer already gone when accepted; 0 live, 1 hook closes in Attaching, 2 hook closes in Attached, 3 proto refuses, 4 peer drops later, 5 app closes later
 	for i := range fate {
-		fate[i] = verif.Choice("fate", 6)
+		fate[i] = verif.Choice("fate", 7)
 	}
 	cur := 0
 	rp.refuse = func(n int) bool { return false }
@@ -125,7 +125,12 @@ func VH13a_listener() {
 		cur = i
 		f := fate[i]
 		rp.refuse = func(n int) bool { return f == 3 }
-		tp := side.Peer("c")
+		var tp *vt.Pipe
+		if f == 6 {
+			tp = side.L.ConnectDropped("c")
+		} else {
+			tp = side.Peer("c")
+		}
 		tps = append(tps, tp)
 		verif.Quiesce()
 		if len(order) <= i {
